@@ -151,6 +151,13 @@ func (r *RefCount[T]) ClearContext() {
 // the callback will be called with an empty value when the value becomes empty.
 func (r *RefCount[T]) AddRef(cb func(resolved bool, val T, err error)) *Ref[T] {
 	r.mtx.Lock()
+	nref := r.addRefLocked(cb)
+	r.mtx.Unlock()
+	return nref
+}
+
+// addRefLocked adds a reference while mtx is locked.
+func (r *RefCount[T]) addRefLocked(cb func(resolved bool, val T, err error)) *Ref[T] {
 	nref := &Ref[T]{rc: r, cb: cb}
 	r.refs[nref] = struct{}{}
 	if len(r.refs) == 1 && !r.resolved {
@@ -158,7 +165,6 @@ func (r *RefCount[T]) AddRef(cb func(resolved bool, val T, err error)) *Ref[T] {
 	} else if r.resolved {
 		nref.cb(true, r.value, r.valueErr)
 	}
-	r.mtx.Unlock()
 	return nref
 }
 
@@ -198,8 +204,10 @@ func (r *RefCount[T]) WaitWithReleased(ctx context.Context, released func()) (pr
 	var currResolved bool
 	var currNonce uint32
 	var callReleasedOnce sync.Once
+	// ref is guarded by r.mtx: it is read by the callback below.
 	var ref *Ref[T]
-	ref = r.AddRef(func(resolved bool, val T, err error) {
+	r.mtx.Lock()
+	ref = r.addRefLocked(func(resolved bool, val T, err error) {
 		// note: r.mtx is held while calling this function.
 		// check if state is different, if we returned already.
 		if currResolved {
@@ -221,6 +229,7 @@ func (r *RefCount[T]) WaitWithReleased(ctx context.Context, released func()) (pr
 			prom.SetResult(val, err)
 		}
 	})
+	r.mtx.Unlock()
 	return prom, ref
 }
 
